@@ -337,10 +337,8 @@ theorem onTok_spec {env : Env} (hwf : wfEnv env = true) {rec : Nat → L → PG 
           · exact HandBack.of_epilogue _ _ _ rfl hs
       · -- ParseError
         split
+        · simp [HandBack, hs]
         · exact HandBack.of_epilogue _ _ _ rfl hs
-        · split
-          · simp [HandBack, hs]
-          · exact HandBack.of_epilogue _ _ _ rfl hs
       · split
         · rename_i hp
           exact onFound_spec hwf hrec sp fuel k hk tok _ _ _ _ hp _ g hs (by simp [hw]) (by simpa using hpo)
@@ -492,10 +490,8 @@ theorem onTok_raising {env : Env} {rec : Nat → L → PG → Res} (hrec : RecR 
           · rfl
           · rw [epilogue_g]
       · split
+        · rfl
         · rw [epilogue_g]
-        · split
-          · rfl
-          · rw [epilogue_g]
       · split
         · exact onFound_raising hrec _ _ _ _ _ _ _ _
         · rfl
